@@ -316,6 +316,7 @@ func init() {
 			sweepLengthStructures(c, bdw, false, mk(wide, "wide"))
 			sweepTinyBodies(c, ba, mk(narrow, "narrow"))
 			sweepLarge(c, mk(wide, "wide"))
+			sweepTypes(c, mk(narrow, "narrow"))
 			c.Watch(nil)
 			if c.Expired() {
 				c.Res.Exhaustive = false
